@@ -86,6 +86,12 @@ func (x *Exec) timeModels(fn *ssa.Function, name string) modelFn {
 			// January 1, year 1, 00:00:00 UTC
 			cont(st, scalar(Eq(x.tns(st, args[0]), Mul(IntLit(-62135596800), IntLit(1000000000))), types.Typ[types.Bool]))
 		}
+	case "(time.Time).Format":
+		return func(st *State, fr *Frame, fn *ssa.Function, args []*Val, pos token.Pos, cont retFn) {
+			// pure: an uninterpreted function of the instant and the layout (time zone ignored)
+			x.declareFun(st, "timeFormat", []string{SInt, SStr}, SStr)
+			cont(st, scalar(app(SStr, "timeFormat", x.tns(st, args[0]), args[1].T), types.Typ[types.String]))
+		}
 	case "(time.Duration).Seconds", "(time.Duration).Minutes", "(time.Duration).Hours":
 		return nil
 	}
